@@ -53,3 +53,16 @@ Proof.
     + destruct k; cbn; numR; lra.
     + destruct k as [|k]; cbn [vadd vmap2 nth]; [numR; lra|]. apply IH; lia.
 Qed.
+
+(* the code as it stands accepts offsets outside 0 .. |n_out - n| (Python slice wrap-around /
+   NumPy length-1 broadcasting) -- finding offset-out-of-range-accepted *)
+Lemma offset_range_refuted :
+  (offset_ok 1 4 (-3) = false /\ resize1 PConstant Forward 0 true [5] 4 (-3) = Ok [0; 5; 0; 0]) /\
+  (offset_ok 5 2 4 = false /\ resize1 PConstant Forward 0 true [1; 2; 3; 4; 5] 2 4 = Ok [5; 5]).
+Proof.
+  split; (split; [reflexivity|]).
+  - unfold resize1. cbn [pmode_eqb negb andb is_fwd length Nat.ltb Nat.leb padding_applies]. numR.
+    rewrite Reqb_refl. cbn [negb]. reflexivity.
+  - unfold resize1. cbn [pmode_eqb negb andb is_fwd length Nat.ltb Nat.leb padding_applies]. numR.
+    rewrite Reqb_refl. cbn [negb]. reflexivity.
+Qed.
